@@ -772,6 +772,7 @@ pub mod vtable{ordinal} {{
 }}
                         "#,
         );
+        let code = crate::verif_native_payload_vtable(code, module);
 
         let map = match payload_for {
             PayloadFor::Future => &mut self.r#gen.future_payloads,
